@@ -597,6 +597,13 @@ namespace {
         t->id = static_cast<int>(g.threads.size());
         t->name = "t" + std::to_string(t->id);
         t->prio = g.sched.next() >> 1;
+        // fault: a thread that takes long to start (its creator and everybody else run on meanwhile)
+        if (g.cfg.start_delay_p > 0 && g.sched.chance(g.cfg.start_delay_p)) {
+            t->st = Blocked;
+            t->pred = nullptr;
+            t->deadline = g.now + 1 + static_cast<i64>(g.sched.below(static_cast<u64>(std::max<i64>(1, g.cfg.start_delay_max_ns))));
+            g_rec.fault("slow_thread_start");
+        }
         Thr* r = t.get();
         g.threads.push_back(std::move(t));
         return r;
